@@ -15,6 +15,9 @@ ROOT = os.path.dirname(os.path.dirname(os.path.abspath(__file__)))
 SPEC = os.path.join(ROOT, "spec")
 HARNESS = os.path.join(ROOT, "harness")
 REPO = os.environ.get("VERIF_REPO", "/repo")
+# evidence and replay files of a run against a scratch worktree (seeded change, reverted fix) never
+# overwrite those of /repo itself
+OUTROOT = ROOT if os.path.realpath(REPO) == "/repo" else os.path.join(ROOT, ".work", "alt-out")
 NCPU = int(os.environ.get("VERIF_WORKERS", "0")) or os.cpu_count() or 4
 
 
@@ -448,9 +451,9 @@ def report(ctx, sig, text, replay_obj):
             return
     if any(v["sig"] == sig for v in ctx.violations):
         return
-    os.makedirs(os.path.join(ROOT, "replay"), exist_ok=True)
+    os.makedirs(os.path.join(OUTROOT, "replay"), exist_ok=True)
     h = hashlib.sha1(sig.encode()).hexdigest()[:8]
-    rp = os.path.join(ROOT, "replay", "%s-%s.json" % (ctx.pid, h))
+    rp = os.path.join(OUTROOT, "replay", "%s-%s.json" % (ctx.pid, h))
     with open(rp, "w") as f:
         json.dump({"property": ctx.pid, "sig": sig, "text": text, "seed": ctx.seed, "tier": ctx.tier,
                    "case": replay_obj}, f, indent=1, default=str)
@@ -467,8 +470,8 @@ def finish(ctx):
     ev = {"property_id": ctx.pid, "tier": ctx.tier, "seed": ctx.seed, "level": ctx.level,
           "coverage": cov, "assumptions": ctx.assumptions, "wall_s": round(time.time() - ctx.t0, 2),
           "violations": len(ctx.violations)}
-    os.makedirs(os.path.join(ROOT, "evidence"), exist_ok=True)
-    with open(os.path.join(ROOT, "evidence", ctx.pid + ".json"), "w") as f:
+    os.makedirs(os.path.join(OUTROOT, "evidence"), exist_ok=True)
+    with open(os.path.join(OUTROOT, "evidence", ctx.pid + ".json"), "w") as f:
         json.dump(ev, f, indent=1, default=str)
     for (sig, text) in ctx.known:
         print("KNOWN-FINDING: property=%s sig=%s %s" % (ctx.pid, sig, text))
